@@ -1,6 +1,7 @@
 import Martian.Props.C04.Facts
 import Martian.Props.C04.Ends
 import Martian.Props.C04.Lifetime
+import Martian.Props.C04.Multi
 import Martian.Lemmas.Tunnel
 /-!
 C04 — blind CONNECT tunnels are byte-transparent both ways and propagate end-of-stream.
